@@ -48,6 +48,19 @@ CHECKS["C03"] = ("fault_enumeration",
     "durable state (open transactions roll back); the end-to-end teosd binary tier is not built yet",
     "DESIGN.md section 6 C03")
 
+CHECKS["C12"] = ("fault_enumeration",
+    "outage enumeration on the real tower with requests and the chain monitor on their own threads, each run validated by "
+    "Trace_Tower.tla (unavailable + unchanged while the flag is down, interrupted submission re-issued, no thread left blocked); "
+    "reachability protocol model-checked by TLC (Outage.tla: deadlock freedom, NoDrop, Recovers under fairness)",
+    "Fault enumeration over where the outage starts (request path / block-processing path / idle / header, block or best-tip "
+    "download inside a multi-block poll), how many failing polls it lasts and whether blocks are mined meanwhile. The node is "
+    "brought back and recovery must happen by itself: a thread still blocked 14 s later (Carrier probe interval 10 s + slack) "
+    "is a violation. Outage.tla checks the lock/flag protocol exhaustively (and, as a vacuity check, that the protocol "
+    "without the Carrier's own probe deadlocks).",
+    TOWER_NOTE + "; real-time bound for 'blocked for ever'; in the scenario where a blocked request and the chain thread run "
+    "concurrently only the no-thread-blocked clause is judged",
+    "DESIGN.md section 6 C12")
+
 NOT_YET = {
 }
 
